@@ -17,13 +17,14 @@ WORKER_DEATH_IS_RESULT = True
 CASE_TIMEOUT = 60
 SHARD = 12
 
-# model parameters: False = the code as it is now; True = after the repair proposed in notes/fixes/
-# (C17_FIXED=utmp,ioprio,mnt,ethtool in the environment flips them for a trial run against a patched copy)
-_FX = set(filter(None, os.environ.get("C17_FIXED", "").split(",")))
-FIXED_UTMP = "utmp" in _FX        # notes/fixes/C17-users-field-width.diff
-FIXED_IOPRIO = "ioprio" in _FX    # notes/fixes/C17-ionice-ioclass-range.diff
-FIXED_MNT_UTF8 = "mnt" in _FX     # notes/fixes/C17-disk-partitions-decode.diff
-FIXED_ETHTOOL = "ethtool" in _FX  # notes/fixes/C17-ethtool-speed-shift.diff
+# model parameters: True = the code as it is now (model of record, after the repairs e85352e users, a87b45e ionice,
+# 301715a ethtool speed, 0d52d5b disk_partitions); False = the legacy variant of the model, only for trial runs against a
+# revert:  C17_LEGACY=utmp,ioprio,mnt,ethtool VERIF_REPO=<copy with the commit reverted> ./vcheck C17 quick
+_LEGACY = set(filter(None, os.environ.get("C17_LEGACY", "").split(",")))
+FIXED_UTMP = "utmp" not in _LEGACY
+FIXED_IOPRIO = "ioprio" not in _LEGACY
+FIXED_MNT_UTF8 = "mnt" not in _LEGACY
+FIXED_ETHTOOL = "ethtool" not in _LEGACY
 
 RULE = ("utmp files printed from records (every ut_type incl. negative, pid/time over the int32 range, line/user/host of length "
         "0,1,w-1,w with ASCII / non-UTF-8 / ':0' contents, embedded NULs, junk in the other fields) plus raw files with partial "
@@ -352,6 +353,8 @@ def gen_cases(rng, tier):
         cases.append({"kind": "mounts_raw", "cls": "mounts-raw" if m else "trivial", "all": rng.random() < 0.5,
                       "filesystems": rng.choice(raw_fs).hex(), "mounts": m.hex()})
     # ---- arguments
+    for hi, lo, dup in [(0, 0, 255), (0, 1000, 1), (0, 10, 0), (65535, 65535, 255), (32767, 65535, 1), (32768, 0, 1), (1, 34464, 1), (0, 1000, 7)]:
+        cases.append({"kind": "speed", "cls": "speed", "hi": hi, "lo": lo, "duplex": dup})
     if tier != "search":
         cases.extend(_entry_cases(rng, tier))
         cases.extend(_live_ifaces())
@@ -403,9 +406,11 @@ def coq_term(case):
     if k == "mounts_raw":
         return "run_mounts_raw %s %s %s %s" % (G.bo(FIXED_MNT_UTF8), G.bo(case["all"]), _hb(case["filesystems"]), _hb(case["mounts"]))
     if k == "entry":
-        return "run_entry %s %s" % (ENTRY_COQ[case["ep"]], G.lst([_pyval(a) for a in case["args"]]))
+        return "run_entry %s %s %s" % (G.bo(FIXED_IOPRIO), ENTRY_COQ[case["ep"]], G.lst([_pyval(a) for a in case["args"]]))
     if k == "ionice":
         return "run_ionice %s 0 %s %s" % (G.bo(FIXED_IOPRIO), G.z(case["ioclass"]), G.z(case["value"] or 0))
+    if k == "speed":
+        return "run_speed %s %s %s %s" % (G.bo(FIXED_ETHTOOL), G.z(case["hi"]), G.z(case["lo"]), G.z(case["duplex"]))
     if k == "netif":
         mac = bytes.fromhex(case["mac"].replace(":", "")) if case["mac"] else b""
         eth = case["eth"] or [0, 0, 255]      # EOPNOTSUPP / EINVAL: duplex unknown, speed 0
@@ -431,11 +436,11 @@ def coq_struct(case, raw):
         m = [raw[0], raw[1]]
         return {"parts": m, "model": None if any(_oom(x) for x in m) else m, "spec": None}
     if k in ("entry", "ionice"):
-        if FIXED_IOPRIO and k == "entry" and case["ep"] == "proc_ioprio_set" and raw.get("t") == "UB":
-            # repaired C code shifts as unsigned: the (wrapped) value reaches the kernel, which answers EINVAL
-            raw = {"t": "Os", "a": [{"t": "ioprio_set", "a": []}, [], {"b": ""}]}
         os_reached = isinstance(raw, dict) and raw.get("t") == "Os"
         return {"cres": raw, "model": None if os_reached else raw, "spec": None}
+    if k == "speed":
+        ub = isinstance(raw, dict) and raw.get("t") == "UB"
+        return {"model": raw, "spec": None, "ub": ub}
     if k == "netif":
         names = [x["t"] for x in raw[0]]
         if isinstance(raw[2], dict) and raw[2].get("t") == "UB":
@@ -479,6 +484,8 @@ def finding_key(case, coq):
         return "ioprio-shift-overflow"
     if k == "netif" and not FIXED_ETHTOOL and case.get("eth") and case["eth"][0] >= 2 ** 15:
         return "ethtool-speed-shift"
+    if k == "speed" and not FIXED_ETHTOOL and case["hi"] >= 2 ** 15:
+        return "ethtool-speed-shift"
     return None
 
 
@@ -502,7 +509,7 @@ def judge(case, coq, impl):
         if tag == "Os":
             if impl.get("t") == "Val" or impl == Exc("OSError") or impl.get("t") == "Exc" and impl["a"][0]["t"] in (
                     "NoSuchProcess", "AccessDenied", "ZombieProcess"):
-                if case["ep"] in ("net_if_mtu", "net_if_flags", "net_if_is_running", "net_if_duplex_speed"):
+                if case.get("ep") in ("net_if_mtu", "net_if_flags", "net_if_is_running", "net_if_duplex_speed"):
                     # the name the kernel sees is the model's 15-byte cut: "lo" must answer, an absent name must not
                     seen = bytes.fromhex(cres["a"][2]["b"])
                     if seen == b"lo" and impl.get("t") != "Val":
@@ -512,7 +519,7 @@ def judge(case, coq, impl):
                 return Verdict("ok")
             return Verdict("corr", "arguments reach the OS in the model, implementation raised %s" % (impl,))
         return Verdict("ok") if impl == cres else Verdict("corr", "impl %s != model %s" % (impl, cres))
-    if k == "netif" and coq.get("ub"):
+    if k in ("netif", "speed") and coq.get("ub"):
         if impl == coq["model"]:
             return Verdict("violation", "signed integer overflow in C (UBSan): speed_hi << 16 in psutil_ethtool_cmd_speed")
         if _is_abort(impl):
@@ -528,7 +535,7 @@ def judge(case, coq, impl):
     parts = impl if isinstance(impl, list) else [impl]
     if any(_is_abort(p) or p == T("OOB") for p in parts):
         return Verdict("violation", "crash / sanitizer abort: %s" % (str(impl)[:400],))
-    if k in ("utmp", "utmp_raw", "netif"):
+    if k in ("utmp", "utmp_raw", "netif", "speed"):
         if coq["spec"] is not None and impl != coq["spec"]:
             return Verdict("violation", "impl != spec")
         if coq["model"] is not None and impl != coq["model"]:
@@ -645,10 +652,23 @@ def impl_run(case, coq, env):
             p = psutil.Process()
             return _outcome(lambda: p.ionice(case["ioclass"], case["value"]), lambda v: None if v is None else T("Some", repr(v)[:80]))
         return _iso(call)
+    if k == "speed":
+        live = [c for c in _live_ifaces() if c["eth"] == [case["hi"], case["lo"], case["duplex"]]]
+        if not live:
+            return T("Skip", "no live interface with this ethtool answer")
+        n = live[0]["name"]
+
+        def call():
+            d, sp = cext.net_if_duplex_speed(n)
+            return [_outcome(lambda: {cext.DUPLEX_FULL: 2, cext.DUPLEX_HALF: 1, cext.DUPLEX_UNKNOWN: 0}[d], int), sp]
+        return _iso(call)
     if k == "netif":
         import ipaddress
         import socket
         n = case["name"]
+        now = [c for c in _live_ifaces() if c["name"] == n]
+        if not now or any(now[0][f] != case[f] for f in ("flags", "mtu", "mac", "eth", "inet", "inet6", "names")):
+            return T("Skip", "stale live-interface case (the interface list changed since the case was recorded)")
 
         def call():
             addrs = psutil.net_if_addrs()
